@@ -126,6 +126,21 @@ impl RunCtx {
         }
     }
 
+    /// Is `pattern` listed as an open known finding?
+    pub fn is_open(&self, pattern: &str) -> bool {
+        self.open_patterns.iter().any(|o| o == pattern)
+    }
+
+    pub fn open_list(&self) -> Vec<String> {
+        self.open_patterns.clone()
+    }
+
+    /// Count a hit of an open known finding that the engine matched itself.
+    pub fn note_known(&mut self, pattern: &str, detail: String) {
+        let e = self.known_hits.entry(pattern.to_string()).or_insert((0, detail));
+        e.0 += 1;
+    }
+
     #[inline]
     pub fn log(&mut self, s: String) {
         self.trace.push(s);
